@@ -169,6 +169,18 @@ Theorem message_future_ends_with_plain_answer :
 Proof. exact agent_emits_end_with_plain_answer. Qed.
 Print Assumptions message_future_ends_with_plain_answer.
 
+(* ... and the future ends closed exactly when the run returns an answer, with an error item when it
+   fails ([future_closed] also covers the one case outside the refinement's domain, evaluated by the
+   correspondence: a Stream run that returned direct_return's stream ends its future closed although
+   its caller then meets the failure of a tool stream, [ELate]) *)
+Theorem message_future_closed_iff_run_returns :
+  forall tn tns rd rd_nonempty modifier visible checker md script max_steps input,
+    Forall (reply_exact tn tns rd rd_nonempty checker md) script ->
+    future_closed (agent_run tn tns rd rd_nonempty modifier visible checker md max_steps script input) = true
+    <-> exists m, t_out (agent_run tn tns rd rd_nonempty modifier visible checker md max_steps script input) = Final m.
+Proof. exact agent_future_closed_iff_final. Qed.
+Print Assumptions message_future_closed_iff_run_returns.
+
 (* the answer is the first assistant message without tool calls, or the result of the first
    call to a return-directly tool ([answers] is that predicate) ... *)
 Theorem returns_first_plain_or_direct :
@@ -578,6 +590,17 @@ Example late_stream_failure_is_met_one_node_later :
   run Generate 2 = Failed (ETools 100) /\ run Stream 2 = Failed EStepLimit
   /\ run Generate 3 = Failed (ETools 100) /\ run Stream 3 = Failed (ETools 100).
 Proof. vm_compute. repeat split; reflexivity. Qed.
+(* ... and behind direct_return the failure is met by the caller, after the run (and its message
+   future) have ended normally *)
+Example late_stream_failure_behind_direct_return :
+  let c := mkCall "a0" "final" "x" in
+  let script := [SMsg "" [c] [whole_chunk "" [c]]] in
+  let tn := fun _ : list call => @Err (list tmsg) 100%N in
+  let tns := fun calls : list call => Ok (map c_id calls, [(0, "par")]%nat, Some 100%N) in
+  let run := fun md => agent_run tn tns ex_rd true (fun h => h) (fun _ => true) exact_checker md 13 script ex_input in
+  t_out (run Generate) = Failed (ETools 100) /\ future_closed (run Generate) = false
+  /\ t_out (run Stream) = Failed (ELate 100) /\ future_closed (run Stream) = true.
+Proof. vm_compute. repeat split; reflexivity. Qed.
 (* the slice model on a run of two rounds, no modifier, MaxStep 5 (capacity 6) and a doubling
    growth policy: the first two histories handed to the model share the state's first backing
    array (array 0: the later appends to it happened in place, behind the handed slices), the
@@ -597,6 +620,22 @@ Example tools_alike_nonvacuous :
   tools_alike (fun name args => if String.eqb args "fail" then Tools.TErr 7 else Tools.TOk (concat_strings [name; ""; args]))
               (fun name args => if String.eqb args "fail" then SErr 7 else SOk [name; ""; args] None).
 Proof. intros name args. destruct (String.eqb args "fail"); simpl; auto. split; [discriminate|reflexivity]. Qed.
+(* a malformed model stream (two names for the tool call at index 0: the chunks do not concatenate,
+   outside [chunking_valid]): Generate is not concerned; in Stream mode the chat node has returned the
+   stream, the branch routes it - to the tools node, whose pre-processing fails in the next superstep
+   (or the step limit strikes first), or to END: the caller fails reading what the run returned *)
+Example malformed_model_stream_fails_where_it_is_read :
+  let c := mkCall "a0" "search" "x" in
+  let bad := [mkChunk "" [mkFrag 0 "a0" "search" "x"]; mkChunk "" [mkFrag 0 "" "other" ""]] in
+  let script := [SMsg "" [c] bad; SMsg "done" [] [mkChunk "done" []]] in
+  let run := fun checker md n => agent_run ex_tn ex_tns ex_rd false (fun h => h) (fun _ => true) checker md n script ex_input in
+  concat_chunks bad = None
+  /\ t_out (run exact_checker Generate 12) = Final (assistant "done" [])
+  /\ t_out (run exact_checker Stream 12) = Failed EConcat /\ t_rounds (run exact_checker Stream 12) = []
+  /\ t_out (run exact_checker Stream 1) = Failed EStepLimit
+  /\ t_out (run (fun _ => false) Stream 12) = Failed (ELate E_CONCAT)
+  /\ future_closed (run (fun _ => false) Stream 12) = true.
+Proof. vm_compute. repeat split; reflexivity. Qed.
 (* the tools node of the examples answers in call order; the future's messages of the example run *)
 Example tn_in_order_nonvacuous : tn_in_order ex_tn.
 Proof. intros calls results H. inversion H. rewrite map_map. reflexivity. Qed.
